@@ -32,7 +32,7 @@ SPEC = {
     "group": G,
     "level": "proof",
     "harnesses": _hs(),
-    "caps": {"jobs": 2, "mem_gb": 10, "quick_harness_timeout": 400, "thorough_harness_timeout": 1200},
+    "caps": {"jobs": 8, "mem_gb": 12, "quick_harness_timeout": 400, "thorough_harness_timeout": 1200},
     "functions": [
         "tracing_subscriber::fmt::writer::MakeWriterExt::{with_max_level, with_min_level, with_filter, and, or_else}",
         "MakeWriter::{make_writer, make_writer_for} for WithMaxLevel, WithMinLevel, WithFilter, Tee, OrElse; {WithMaxLevel, WithMinLevel, WithFilter}::new",
